@@ -1,13 +1,16 @@
 // bounded-pkg: internal/holsterv4/collections
-// bounded-func: collections.(*PriorityQueue).{Push,Pop,Peek,Update,Remove} (assumed contracts over container/heap)
+// bounded-func: container/heap.{Init,Push,Pop,Remove} on collections.pqImpl (assumed contracts; the PriorityQueue wrapper and pqImpl's methods are proved against them), exercised through PriorityQueue.{Push,Pop,Peek,Update,Remove}
 // bounded-props: C03 C13 C14
 // bounded-bound: every sequence of up to 4 operations (whose preconditions hold) over 4 items with priorities in {0,1,2,3}, plus every insertion order of 5 distinct priorities followed by pops; heap shape checked after every step
 // bounded-bound-thorough: every sequence of up to 5 operations (whose preconditions hold) over 4 items with priorities in {0,1,2,3}, plus every insertion order of 6 distinct priorities followed by pops; heap shape checked after every step
 package collections
 
-// Bounded stand-in (NOT a proof): PriorityQueue delegates to container/heap through heap.Interface call-backs, which is
-// outside the verifier's reach. The contracts assumed in verif_contracts.go (ghost membership set qin, qlen, qtop and the
-// items' Priority) are evaluated here on the real code for every operation sequence within the bound.
+// Bounded stand-in (NOT a proof) for the assumed contracts of container/heap. The PriorityQueue wrapper and the five
+// heap.Interface methods of pqImpl are proved (verif_contracts.go: pqRep, heapOK); what stays assumed is that
+// container/heap's Init / Push / Pop / Remove, driven through those call-backs, keep the slice a heap whose items carry
+// their positions, add / remove exactly the named item and mark a removed one with index -1. The wrapper's contracts over
+// the ghost view (membership set, length, top, the items' Priority), which follow from those assumptions, are evaluated
+// here on the real code for every operation sequence within the bound, heap shape and index fields after every step.
 
 import (
 	"os"
